@@ -310,6 +310,19 @@ static int nestfree_cb(cfg_t *cfg, cfg_opt_t *opt, int argc, const char **argv)
 	return 0;
 }
 
+// adddir(dir): the callback adds a search directory to the context it is handed (the section it stands in)
+static int adddir_cb(cfg_t *cfg, cfg_opt_t *opt, int argc, const char **argv)
+{
+	string a = ",\"argv\":[";
+	for (int i = 0; i < argc; i++)
+		a += (i ? "," : "") + jstr(argv[i]);
+	a += "]";
+	cb_tick("func", opt, a);
+	if (argc == 1)
+		cfg_add_searchpath(cfg, argv[0]);
+	return 0;
+}
+
 static void print_cb(cfg_opt_t *opt, unsigned int index, FILE *fp) { fprintf(fp, "<%s:%u>", opt->name, index); }
 
 static int filter_cb(cfg_t *cfg, cfg_opt_t *opt)
@@ -667,7 +680,7 @@ static cfg_opt_t *build_opts(long sid)
 				break;
 			case 'F':
 				o.type = CFGT_FUNC;
-				o.func = (def.s == "1") ? cfg_include : (def.s == "2") ? nest_cb : (def.s == "3") ? nestfree_cb : func_cb;
+				o.func = (def.s == "1") ? cfg_include : (def.s == "2") ? nest_cb : (def.s == "3") ? nestfree_cb : (def.s == "4") ? adddir_cb : func_cb;
 				break;
 			}
 			if (cb & 1)
